@@ -169,6 +169,7 @@ Conc(s) ==
     \* maths (C10, C11)
     [] s = "mo"  -> <<"$">> [] s = "mc" -> <<"$">> [] s = "mo2" -> <<BS,"(">> [] s = "mc2" -> <<BS,")">>
     [] s = "my"  -> <<"y">> [] s = "mw" -> <<"x">> [] s = "mpl" -> <<"+">> [] s = "meq" -> <<"=">>
+    [] s = "muk" -> <<BS,"f","o","o">>          \* the undeclared macro of symbol uk, used in maths (not listed from there)
     [] s = "mal" -> <<BS,"a","l","p","h","a">> [] s = "mfr" -> <<BS,"f","r","a","c","{","y","}","{","x","}">>
     [] s = "msb" -> <<"_","{","x","}">> [] s = "msp" -> <<BS,",">> [] s = "mti" -> <<"~">>
     [] s = "mdt" -> <<".">> [] s = "mcm" -> <<",">> [] s = "mob" -> <<"{">> [] s = "mcb" -> <<"}">>
@@ -233,7 +234,7 @@ FaultOff(s) == CASE s = "FargE" -> 13 [] s = "FoptE" -> 5 [] s = "FaccD" -> 9 []
 OpenSyms == {"itl", "capo", "seco", "alt", "xo","ob","add","fbx","tc","fn","cap","sec","sub","uB","uC","uCo","uD","uE","uF","uG","cto"}
 MathOpen == {"mo", "mo2"}
 DispOpen == {"ba", "bat", "bq", "bd", "bdd"}
-MathBody == {"my","mw","mpl","meq","mal","mfr","msb","msp","mti","mdt","mcm","mob","mcb"}
+MathBody == {"my","mw","mpl","meq","mal","muk","mfr","msb","msp","mti","mdt","mcm","mob","mcb"}
 DispBody == MathBody \cup {"mtx","mlb","mnn","mam","mnl"}
 CloserOf(o) == CASE o = "mo" -> "mc" [] o = "mo2" -> "mc2" [] o = "ba" -> "ea" [] o = "bat" -> "eat" [] o = "bq" -> "eq" [] o = "bd" -> "ed" [] o = "bdd" -> "edd"
 MathSyms == MathOpen \cup DispOpen \cup DispBody \cup {"mc","mc2","ea","eat","eq","ed","edd"}
@@ -283,7 +284,7 @@ Pos0(st) == Len(st.src)          \* 0-based offset of the next character = 1-bas
 
 CurLang(st) == st.lstack[Len(st.lstack)]
 Emit(st, items) == [st EXCEPT !.flows[CurFlow(st)] = @ \o [i \in 1..Len(items) |-> [items[i] EXCEPT !.lg = CurLang(st)]]]
-CwSyms == {"uk", "uk2", "par", "it", "fnm", "uA", "uH", "uI", "mal", "mnn", "tbs"}        \* symbols whose text ends with a control word
+CwSyms == {"uk", "uk2", "par", "it", "fnm", "uA", "uH", "uI", "mal", "muk", "mnn", "tbs"}        \* symbols whose text ends with a control word
 AddSrc(st, s) == [st EXCEPT !.src = @ \o Conc(s), !.cw = s \in CwSyms, !.vis = s \in Visible, !.ls = s]
 Feat(st, f) == [st EXCEPT !.feat = @ \cup {f}]
 \* text seen inside the innermost heading (for the dot rule) and in every enclosing frame
